@@ -8,6 +8,7 @@
 // At the end the shared sink holds T*R*M statements. Prints "OK ..." or the first failure. Built plain, with
 // ThreadSanitizer and with AddressSanitizer by props/c17.py (thorough tier).
 // usage: lg_mt <threads> <rounds> <statements per round>
+#include <algorithm>
 #include <atomic>
 #include <cstdio>
 #include <cstdlib>
@@ -92,9 +93,13 @@ int main(int argc, char** argv)
         quill::Logger* lg = quill::Frontend::create_or_get_logger(name, {priv, shared}, quill::PatternFormatterOptions{"%(message)"});
         if (quill::Frontend::create_or_get_logger(name, {shared}) != lg) { fail("create_or_get_logger not idempotent"); break; }
         if (quill::Frontend::get_logger(name) != lg) { fail("get_logger does not return the created logger"); break; }
-        // concurrent look-ups of other threads' names and of the whole registry (results are only used for their validity)
+        // concurrent look-ups of other threads' names and of the whole registry. The returned pointers are not dereferenced:
+        // another thread's logger may be removed (and freed by the backend) at any time after the call returns
         (void)quill::Frontend::get_logger("L" + std::to_string((t + 1) % T));
-        for (auto* other : quill::Frontend::get_all_loggers()) { if (!other->is_valid_logger()) { /* may have been removed meanwhile */ } }
+        {
+          auto all = quill::Frontend::get_all_loggers();
+          if (std::find(all.begin(), all.end(), lg) == all.end()) { fail("get_all_loggers does not list the caller's valid logger"); break; }
+        }
         for (int i = 0; i < M; ++i) LOG_INFO(lg, "{}", i);
         priv.reset();
         quill::Frontend::remove_logger_blocking(lg, 0);
